@@ -23,6 +23,7 @@ import TLX.Drv.TlsMsgs
 import TLX.Drv.Dissect
 import TLX.Drv.MainLoop
 import TLX.Drv.QuicSession
+import TLX.Drv.OutBytes
 
 def main (args : List String) : IO UInt32 := do
   match args with
@@ -46,4 +47,5 @@ def main (args : List String) : IO UInt32 := do
   | ["tlsmsgs"] => TLX.Drv.TlsMsgs.main; return 0
   | ["mainloop"] => TLX.Drv.MainLoop.main; return 0
   | ["quicsession"] => TLX.Drv.QuicSession.main; return 0
+  | ["outbytes"] => TLX.Drv.OutBytes.main; return 0
   | _ => IO.eprintln "usage: tlxdriver <module>"; return 2
